@@ -36,6 +36,11 @@ Theorem C06_eq_hash : forall cu f a b ha hb, cmp_ok tbl cu f a = true -> cmp_ok 
 Proof. intros cu f a b ha hb. exact (eq_hash_law tbl cu f a b ha hb). Qed.
 Print Assumptions C06_eq_hash.
 
+(* the "same pre-image" bit compared with hash(a) == hash(b) in the correspondence is Leibniz equality *)
+Theorem C06_hash_bit_is_equality : forall x y, hterm_eqb x y = true <-> x = y.
+Proof. exact hterm_eqb_eq. Qed.
+Print Assumptions C06_hash_bit_is_equality.
+
 Theorem C06_hash_defined : forall v, hashable v = true -> exists h, hpre tbl v = Ok h.
 Proof. exact (hash_total_law tbl (fun _ => 0%N)). Qed.
 Print Assumptions C06_hash_defined.
